@@ -16,6 +16,11 @@ token owner.  "Physical acquire/release" is observed from the outside:
     lock_write / lock_read / unlock, recorded by attribute rebinding on the classes),
   * the ``lock/held`` directories on disk after every call,
   * the OS lock on the dirstate / lock file as listed in /proc/locks.
+A fraction of the sequences ends in a *faulty last unlock*: just before the matching last unlock of a write-locked
+object another party (a fresh LockDir object) force-breaks ONE of the physical write locks that the first lock took
+(the object's own, or the one of a sub-object locked on its behalf), so that this physical release raises LockBroken.
+The last unlock happened all the same: the object and everything it locked on its own behalf must end unlocked and
+every other physical lock must be released.  The rig is thrown away afterwards (fresh tree for the next sequence).
 """
 import itertools
 import os
@@ -25,7 +30,8 @@ LEVEL = "exploration"
 RUST = []  # every anchor of this property is Python; no crate needs rebuilding
 TECHNIQUE = ("reference automaton (mode,count) compared step by step with the real CountedLock over a recording fake "
              "lock (exhaustive), and with real LockableFiles/repository/branch/working-tree objects whose physical "
-             "locks are observed from outside (underlying-lock call recorder, lock/held on disk, /proc/locks)")
+             "locks are observed from outside (underlying-lock call recorder, lock/held on disk, /proc/locks), including "
+             "last unlocks whose physical release fails because another party broke the lock")
 RULE = ("A: all sequences of length <= L (quick 7, thorough 9) over 5 symbols x {reliable, failing physical unlock} "
         "(length-9 sequences are evaluated and counted but not entered into the distinct-signature set, to bound memory); "
         "B: random sequences (<= 40 calls, then drained) over the object's alphabet, biased to cross count 0 and to "
@@ -44,14 +50,16 @@ FLOORS = {
               "real_reentrant_steps": 7500, "real_refusals": 3500, "disk_held_checks": 40000, "proc_locks_checks": 3000,
               "real_seq_lf_lockdir": 70, "real_seq_lf_transportlock": 45, "real_seq_packrepo": 70,
               "real_seq_knitrepo": 70, "real_seq_branch": 190, "real_seq_tree": 215, "packrepo_write_cycles": 100,
-              "token_acquire_via_owner": 75},
+              "token_acquire_via_owner": 75, "real_fault_last_unlock": 100, "real_fault_branch_breaks_own": 25,
+              "real_fault_tree_breaks_own": 40, "real_fault_tree_breaks_sub": 2},
     "thorough": {"counted_steps": 42000000, "counted_physical_acquire": 7000000, "counted_physical_release": 2500000,
                  "counted_refusals": 15500000, "real_steps": 200000, "real_transition_0_1": 25000,
                  "real_transition_1_0": 25000, "real_reentrant_steps": 100000, "real_refusals": 45000,
                  "disk_held_checks": 500000, "proc_locks_checks": 40000, "real_seq_lf_lockdir": 900,
                  "real_seq_lf_transportlock": 600, "real_seq_packrepo": 900, "real_seq_knitrepo": 900,
                  "real_seq_branch": 2500, "real_seq_tree": 2800, "packrepo_write_cycles": 1400,
-                 "token_acquire_via_owner": 1100},
+                 "token_acquire_via_owner": 1100, "real_fault_last_unlock": 1000, "real_fault_branch_breaks_own": 250,
+                 "real_fault_tree_breaks_own": 400, "real_fault_tree_breaks_sub": 20},
 }
 EXHAUSTIVE = {"quick": False, "thorough": False}  # part A is exhaustive within its bound, part B is sampled
 ASSUMPTIONS = [
@@ -72,6 +80,13 @@ ASSUMPTIONS = [
     "write-locked beforehand by the caller (then it succeeds) - taken from BzrBranch.lock_write",
     "after a failing physical unlock CountedLock documents 'we still don't have the lock anymore': state becomes "
     "unlocked and the error propagates (checked in part A only)",
+    "faulty last unlock (part B): when a physical lock taken on the object's behalf was broken by another party, the "
+    "matching last unlock is still the last unlock (LockableFiles.unlock resets its count in a finally:, BzrBranch / "
+    "WorkingTree unlock their repository / branch in a finally:): whatever it raises (histogrammed, LockBroken is the "
+    "documented one), afterwards is_locked() is False, the sub-object locked by the first lock is unlocked again unless "
+    "the caller holds it, every other physical lock taken by the first lock is released, the broken lock was asked "
+    "to unlock exactly once, and a further unlock is refused; only on-disk LockDir write locks can be broken (not "
+    "fake read locks, OS locks, token-borrowed locks or locks the caller holds); the objects are discarded afterwards",
     "sequences are well nested per object: the sub-object (repository under a branch, branch under a tree) is only "
     "ever pre-locked once around the whole sequence, not interleaved; RemoteRepository is not covered (no smart "
     "server in this check)",
@@ -346,7 +361,8 @@ KINDS = [
 ]
 
 OPNAME = {"r": "lock_read", "w": "lock_write", "g": "lock_write_token", "b": "lock_write_badtoken", "t": "lock_tree_write",
-          "u": "unlock", "W": "write_group_commit"}
+          "u": "unlock", "W": "write_group_commit", "F": "unlock_after_lock_broken"}
+P_FAULT = 0.15  # chance that a last unlock with a breakable physical lock becomes a faulty one (ends the rig)
 
 
 class Rig:
@@ -548,6 +564,8 @@ class Rig:
             return ("ok", m if c > 1 else None, c - 1)
         if op == "W":
             return ("ok", m, c)
+        if op == "F":  # last unlock whose physical release fails: the lock is gone all the same
+            return ("fault", None, 0)
         if op == "t":
             if c == 0:
                 return ("ok", "t", 1)
@@ -590,8 +608,27 @@ class Rig:
             return self.cur_token
         return self.last_token or b"never-issued-token"
 
+    # -- fault: a physical lock taken on behalf of the subject is broken by another party
+    def fault_targets(self):
+        """Physical write locks (LockDir on disk) that the subject's first lock took and its last unlock must release."""
+        if self.count != 1 or self.owner is not None:
+            return []
+        return sorted(k for k, m in self.H.items() if m == "W" and k not in self.base and k[0] in self.lockdirs
+                      and os.path.isdir(os.path.join(k[0], "held")))
+
+    def _break(self, key):
+        from breezy import transport as _t
+        from breezy.lockdir import LockDir
+
+        other = LockDir(_t.get_transport_from_path(os.path.dirname(key[0])), os.path.basename(key[0]))
+        holder = other.peek()
+        if holder is None:
+            self.ctx.discard("fault-target-not-on-disk")
+        other.force_break(holder)
+        take_events()
+
     # -- one call
-    def step(self, op, seq, i):
+    def step(self, op, seq, i, target=None):
         ctx = self.ctx
         tok = None
         if op == "g":
@@ -601,6 +638,8 @@ class Rig:
         elif op == "b":
             tok = b"bogus-token-0000"
         want = self.expect(op, tok)
+        if op == "F":
+            self._break(target)
         take_events()
         H0 = dict(self.H)
         got, ret = "ok", None
@@ -614,7 +653,7 @@ class Rig:
                 ret = s.lock_write(token=tok)
             elif op == "t":
                 ret = s.lock_tree_write()
-            elif op == "u":
+            elif op in ("u", "F"):
                 ret = s.unlock()
             elif op == "W":
                 self._write_group_commit()
@@ -626,7 +665,7 @@ class Rig:
         c0, m0 = self.count, self.mode
         if op in ("r", "w", "g", "b", "t"):
             state = "from-unlocked" if c0 == 0 else "reentrant-%s" % {"r": "read", "w": "write", "t": "treewrite"}[m0]
-        elif op == "u":
+        elif op in ("u", "F"):
             state = "not-held" if c0 == 0 else ("last" if c0 == 1 else "nested")
         else:
             state = "write-locked"
@@ -636,6 +675,22 @@ class Rig:
              "underlying_lock_calls": [[os.path.relpath(k[0], self.dir), kd, x] for k, kd, x in ev]}
         ctx.count("real_steps")
         ctx.hist("op:%s:%s:%s" % (self.kind, OPNAME[op], want[0]))
+        if op == "F":
+            # the broken lock is gone from the disk whatever unlock() did; it must have been *attempted* exactly once
+            tname = os.path.basename(os.path.dirname(target[0]))
+            d["broken_lock"] = os.path.relpath(target[0], self.dir)
+            ctx.count("real_fault_last_unlock")
+            ctx.count("real_fault_%s_breaks_%s" % (self.kind, "own" if target[0] == self.own_path else "sub"))
+            ctx.hist("fault:%s:broken-%s:%s" % (self.kind, tname, "no-error" if got == "ok" else type(got).__name__))
+            tried = [x for k, kd, x in ev if k == target and kd == "X"]
+            if target in self.H:
+                del self.H[target]
+                if len(tried) != 1:
+                    ctx.fail(key + "broken-lock-release-attempts", "the broken physical lock was asked to unlock %d times, "
+                             "expected once" % len(tried), d, stop=True)
+            else:
+                fails.append("broken-lock-reported-released")
+            want = ("ok", None, 0)
         for f in fails:
             ctx.fail(key + f, "underlying lock calls out of order", d, stop=True)
         if op == "u" and c0 == 0 and self.sub_mode and got != "ok" and (self.H != H0 or not self.sub.is_locked()):
@@ -662,7 +717,7 @@ class Rig:
             if self.H != H0:
                 ctx.fail(key + "refusal-changed-physical-locks", "held physical locks changed across a refused call", d, stop=True)
         else:
-            if got != "ok":
+            if got != "ok" and op != "F":
                 ctx.fail(key + "raised-" + type(got).__name__, "expected success: %s" % d["outcome"], d, stop=True)
             _w, m1, c1 = want
             if op == "W":
@@ -743,31 +798,56 @@ class Rig:
         return rng.choices(ops, [w[o] for o in ops])[0]
 
 
-def case_real(ctx, k):
-    from vf.runner import OracleFailure
-
-    kind, fmt, scenario = KINDS[k % len(KINDS)]
+def _new_rig(ctx, kind, fmt, scenario):
     try:
         rig = Rig(ctx, kind, fmt, scenario)
         rig.setup()
     except OSError as e:  # scratch space trouble is not a verdict; anything else while building a fresh tree is
         ctx.discard("rig-setup-failed:%s:%s" % (kind, type(e).__name__))
+    return rig
+
+
+def _maybe_fault(ctx, rig):
+    """Turn the coming last unlock into a faulty one?  -> the physical lock to break, or None."""
+    if rig.count != 1:
+        return None
+    targets = rig.fault_targets()
+    if not targets or ctx.rng.random() >= P_FAULT:
+        return None
+    return ctx.rng.choice(targets)
+
+
+def case_real(ctx, k):
+    kind, fmt, scenario = KINDS[k % len(KINDS)]
+    rig = None
     nseq = SEQS_PER_CASE[ctx.tier]
     for _s in range(nseq):
+        if rig is None:
+            rig = _new_rig(ctx, kind, fmt, scenario)
         n = ctx.rng.randint(4, 40)
         seq = []
         flags = set()
+        faulted = False
         for i in range(n):
             op = rig.gen_op(ctx.rng)
+            target = _maybe_fault(ctx, rig) if op == "u" else None
+            if target is not None:
+                op = "F"
             seq.append(op)
             c0 = rig.count
-            rig.step(op, seq, i)
+            rig.step(op, seq, i, target)
             _flag(flags, c0, rig.count, op)
+            if op == "F":
+                faulted = True
+                break
         while rig.count > 0:  # drain: every remaining unlock is judged as well
-            seq.append("u")
+            target = _maybe_fault(ctx, rig)
+            op = "u" if target is None else "F"
+            seq.append(op)
             c0 = rig.count
-            rig.step("u", seq, len(seq) - 1)
-            _flag(flags, c0, rig.count, "u")
+            rig.step(op, seq, len(seq) - 1, target)
+            _flag(flags, c0, rig.count, op)
+            faulted = faulted or op == "F"
         if ctx.rng.random() < 0.5:  # one unlock too many
             seq.append("u")
             rig.step("u", seq, len(seq) - 1)
@@ -776,7 +856,14 @@ def case_real(ctx, k):
         ctx.note(("B", kind, fmt, scenario, "".join(seq)), nontrivial={"up", "down"} <= flags and ("re" in flags or "x" in flags),
                  sample={"part": "B", "kind": kind, "format": fmt, "scenario": scenario, "sequence": "".join(seq),
                          "legend": OPNAME} if _s == 0 and k % 9 == 0 else None)
-    rig.teardown()
+        if faulted:
+            # after an injected fault the objects are not used again: release the surrounding context, judge what is
+            # left, and continue on a fresh tree
+            ctx.count("real_seq_ended_by_fault")
+            rig.teardown()
+            rig = None
+    if rig is not None:
+        rig.teardown()
 
 
 def _flag(flags, c0, c1, op):
